@@ -732,7 +732,7 @@ func randCall(r *Rng, cond bool) OCall {
 			}
 			return OCall{Op: "setfifo", B: r.Pct(60)}
 		case x < 48:
-			ids := []string{"", "id1", "an id", "_RANDOMx", "random", "_add", "é", "A", "_", "unspecified"}
+			ids := []string{"", "id1", "an id", "_RANDOMx", "random", "_add", "é", "A", "_", "unspecified", "ID1", "Id1", "a", "AN ID", "É", "filter", "FILTER"}
 			return OCall{Op: "setid", S: ids[r.Intn(len(ids))]}
 		case x < 54:
 			return OCall{Op: "setcat", S: optStrings[r.Intn(len(optStrings))]}
